@@ -65,6 +65,8 @@ def family():
             yield label, prog, dict(kind="single", horizon=40)
         for label, prog, meta in F.fam_markers_deep():
             yield label, prog, dict(kind="markers-deep")
+    for label, prog, meta in F.fam_clocks_condaux():
+        yield label, prog, dict(kind="single", horizon=24)
     for label, prog, meta in F.fam_restart():
         yield label, prog, dict(kind="env", depth=10)
     for label, prog, meta in F.fam_clone_markers():
